@@ -89,6 +89,16 @@ CHECKS = {
             'permutation, cyclic ones must raise.',
             'The ordering core is DependencyGraph.get_ordered(); exhaustive '
             'only for the stated node counts.', '3/C09'),
+    'C04': ('exploration',
+            'differential monitoring of real upgrade paths on generated '
+            'on-disk projects (fresh / direct / stepwise, three drivers), '
+            'statement trace + file hash for the no-op re-run',
+            'Every generated history is brought to its last version along '
+            'several real paths in fresh interpreters; schema, rows, '
+            'recorded labels and stored signature are compared and a further '
+            'run must execute nothing.',
+            'Histories use the clean edit subset (see DESIGN 3/C04); '
+            'SQLite files.', '3/C04'),
 }
 
 NOT_YET = 'check under construction (round 1)'
